@@ -42,6 +42,8 @@ from __future__ import annotations
 __docformat__ = 'epytext en'
 
 from typing import Iterable, List, Optional, Sequence, Set, cast
+import datetime
+import functools
 from docutils import nodes
 
 from docutils.core import publish_string
@@ -49,7 +51,8 @@ from docutils.writers import Writer
 from docutils.parsers.rst.directives.admonitions import BaseAdmonition # type: ignore[import-untyped]
 from docutils.readers.standalone import Reader as StandaloneReader
 from docutils.utils import Reporter
-from docutils.parsers.rst import Directive, directives, roles
+from docutils.parsers.rst import Directive, directives, roles, states
+from docutils.parsers.rst.directives.misc import Date
 from docutils.transforms import Transform, frontmatter
 
 from pydoctor.epydoc.markup import Field, ParseError, ParsedDocstring, ParserFunction
@@ -80,6 +83,7 @@ CONSOLIDATED_DEFLIST_FIELDS = ['param', 'arg', 'var', 'ivar', 'cvar', 'keyword']
 
 def parse_docstring(docstring: str, 
                     errors: List[ParseError], 
+                    buildtime: Optional[datetime.datetime] = None,
                     ) -> ParsedDocstring:
     """
     Parse the given docstring, which is formatted using
@@ -89,6 +93,8 @@ def parse_docstring(docstring: str,
     @param docstring: The docstring to parse
     @param errors: A list where any errors generated during parsing
         will be stored.
+    @param buildtime: The build time of the system, this is the time 
+        the C{date} directive presents.
     """
     writer = _DocumentPseudoWriter()
     reader = _EpydocReader(errors) # Outputs errors to the list.
@@ -100,7 +106,8 @@ def parse_docstring(docstring: str,
         publish_string(docstring, writer=writer, reader=reader,
                     settings_overrides={'report_level':10000,
                                         'halt_level':10000,
-                                        'warning_stream':None})
+                                        'warning_stream':None,
+                                        'pydoctor_buildtime':buildtime})
     finally:
         roles._roles.clear()
         roles._roles.update(saved_roles)
@@ -111,11 +118,15 @@ def parse_docstring(docstring: str,
 
     return ParsedRstDocstring(document, visitor.fields)
 
-def get_parser(obj:Documentable) -> ParserFunction:
+def get_parser(obj:Optional[Documentable]) -> ParserFunction:
     """
     Get the L{parse_docstring} function. 
     """
-    return parse_docstring
+    if obj is None:
+        return parse_docstring
+    # The time presented by the "date" directive is the build time of the system 
+    # (that can be fixed with SOURCE_DATE_EPOCH or --buildtime), not the one of the wall clock.
+    return functools.partial(parse_docstring, buildtime=obj.system.buildtime)
 
 class OptimizedReporter(Reporter):
     """A reporter that ignores all debug messages.  This is used to
@@ -509,7 +520,23 @@ for _role in ('mod', 'func', 'data', 'const', 'class', 'meth', 'attr', 'exc', 'o
         roles.register_local_role(_name, roles.GenericRole(_name, nodes.title_reference))
 del _role, _name
 
+class BuildtimeDate(Date): # type: ignore[misc]
+    """
+    The C{date} directive of docutils presents the current time, which makes the output
+    different for each run. This one presents the build time of the system instead, 
+    like the footer of the pages does.
+    """
+
+    def run(self) -> List[nodes.Node]:
+        buildtime = getattr(self.state.document.settings, 'pydoctor_buildtime', None)
+        if buildtime is None or not isinstance(self.state, states.SubstitutionDef):
+            # No system: docutils' behaviour; wrong context: docutils' error message.
+            return super().run() # type: ignore[no-any-return]
+        format_str = '\n'.join(self.content) or '%Y-%m-%d'
+        return [nodes.Text(buildtime.strftime(format_str))]
+
 directives.register_directive('python', PythonCodeDirective)
+directives.register_directive('date', BuildtimeDate)
 directives.register_directive('code', DocutilsAndSphinxCodeBlockAdapter)
 directives.register_directive('code-block', DocutilsAndSphinxCodeBlockAdapter)
 directives.register_directive('versionadded', VersionChange)
